@@ -78,10 +78,18 @@ def outer(v):
 
 
 # ----------------------------------------------------------------------------- GEV
+_GV = [0]
+
+
 def make_gev(rng, tier, idx):
     D = int(rng.integers(2, 9))
     nlead = int(rng.choice([0, 1, 1, 1, 2, 3]))
     lead = tuple(int(v) for v in rng.integers(1, 5 if nlead > 1 else (33 if tier == 'thorough' else 13), nlead))
+    _GV[0] += 1
+    if _GV[0] % 9 == 0:
+        # realistic numbers of bins: one long frequency axis (STFT size 2048 / 4096) or channels x bins stacked
+        D = int(rng.integers(2, 4))
+        lead = [(1025,), (2, 513), (int(rng.integers(1030, 2200)),)][(_GV[0] // 9) % 3]
     scale = 10.0 ** rng.integers(-3, 4)
     kind = str(rng.choice(['full', 'full', 'rank1', 'low']))
     Px = rand_psd(rng, lead, D, kind, scale)
